@@ -291,24 +291,47 @@ def levy_oracle(beta, draws, size, res):
                             % (beta, draws[0], draws[1], res['out'], exp)), False
 
 
+def levy_call(r, beta):
+    size = r.randint(1, 5)
+    g1 = [r.gauss(0, 1) if r.random() < 0.9 else r.choice([0.0, -3.5, 1e-8]) for _ in range(size)]
+    g2 = []
+    for _ in range(size):
+        v = r.gauss(0, 1) if r.random() < 0.8 else r.choice([-1.0, 1.0, 2.0, -0.5, 1e-3, -7.0])
+        g2.append(v if v != 0.0 else 1.0)
+    return {'beta': beta, 'g1': g1, 'g2': g2, 'size': size}
+
+
+def run_levy_seq(calls):
+    """the recorded SEQUENCE of calls in this one process (state kept between calls would show here)"""
+    rows = []
+    for pos, c in enumerate(calls):
+        res = run_levy(c['beta'], [c['g1'], c['g2']], c['size'])
+        k, msg, swapped = levy_oracle(c['beta'], [c['g1'], c['g2']], c['size'], res)
+        if k and pos > 0:
+            msg = 'call %d of a sequence with beta = %s in one process: %s' % (pos + 1, [x['beta'] for x in calls[:pos + 1]], msg)
+        std = res.get('calls') == [[0.0, 1.0, c['size']], [0.0, 1.0, c['size']]]
+        rows.append(dict(c, res=res, oracle=msg if k else None, okey=k, swapped=swapped, standard_draws=std, pos=pos))
+    return rows
+
+
 def levy_cases():
+    """sequences of three calls with two different exponents (b1, b2, b1), both orders, all in this process"""
     r = hlib.rng('c18levy')
     rows = []
     betas = [0.3, 0.5, 1.0, 1.5, 1.99, 2.0, 0.1]
-    n = 40 if hlib.QUICK else 600
+    n = 14 if hlib.QUICK else 200
     for c in range(n):
-        beta = betas[c] if c < len(betas) else r.choice([r.uniform(0.2, 2.0), r.uniform(0.05, 0.5), r.uniform(1.5, 2.0)])
-        size = r.randint(1, 5)
-        g1 = [r.gauss(0, 1) if r.random() < 0.9 else r.choice([0.0, -3.5, 1e-8]) for _ in range(size)]
-        g2 = []
-        for _ in range(size):
-            v = r.gauss(0, 1) if r.random() < 0.8 else r.choice([-1.0, 1.0, 2.0, -0.5, 1e-3, -7.0])
-            g2.append(v if v != 0.0 else 1.0)
-        res = run_levy(beta, [g1, g2], size)
-        k, msg, swapped = levy_oracle(beta, [g1, g2], size, res)
-        std = res.get('calls') == [[0.0, 1.0, size], [0.0, 1.0, size]]
-        rows.append({'beta': beta, 'g1': g1, 'g2': g2, 'size': size, 'res': res, 'oracle': msg if k else None, 'okey': k,
-                     'swapped': swapped, 'standard_draws': std})
+        b1 = betas[c % len(betas)] if c < 2 * len(betas) else r.choice([r.uniform(0.2, 2.0), r.uniform(0.05, 0.5), r.uniform(1.5, 2.0)])
+        b2 = b1
+        while abs(b2 - b1) < 0.05:
+            b2 = r.choice(betas + [r.uniform(0.1, 2.0)])
+        if (c % 2 == 1) != (b1 < b2):          # alternate: small exponent first / large exponent first
+            b1, b2 = b2, b1
+        calls = [levy_call(r, b) for b in (b1, b2, b1)]
+        seq_rows = run_levy_seq(calls)
+        for row in seq_rows:
+            row['seq'] = c
+        rows += seq_rows
     return rows
 
 
@@ -465,9 +488,11 @@ def replay(rp):
         k, msg = pair_oracle(c['vals'], res)
         return {'res': res, 'oracle': msg, 'fails': bool(k), 'okey': k, 'row': dict(c, res=res)}
     if kind == 'levy':
-        res = run_levy(c['beta'], [c['g1'], c['g2']], c['size'])
-        k, msg, sw = levy_oracle(c['beta'], [c['g1'], c['g2']], c['size'], res)
-        return {'res': res, 'oracle': msg, 'fails': bool(k) or sw}
+        calls = c['calls'] if 'calls' in c else [c]
+        rows = run_levy_seq(calls)
+        return {'calls': [{'beta': x['beta'], 'out': x['res'].get('out'), 'oracle': x['oracle'], 'swapped': x['swapped']} for x in rows],
+                'oracle': next((x['oracle'] for x in rows if x['okey']), None),
+                'fails': any(bool(x['okey']) or x['swapped'] or not x['standard_draws'] for x in rows)}
     if kind == 'real':
         try:
             return replay_real(c['call'])
